@@ -89,8 +89,12 @@ def c02(r):
             memo[t] = struct.unpack("<Q", struct.pack("<d", float(f(vec(g)))))[0]
         return memo[t]
 
+    sentinel = (float("-inf") if mx else float("inf")) if r["spec"].get("has_cutoff") else None
+
     def chk(g, fit, where, i):
         tf = true_fit(g)
+        if sentinel is not None and fl(fit) == sentinel:
+            return True   # the documented sentinel of an exhausted evaluation-cutoff wrapper
         if tf != fit and not (fl(tf) == fl(fit)):
             out.append(V("C02/truefit", f"{where}: stored fitness {fl(fit)!r} but objective({list(vec(g))}) = {fl(tf)!r}", event=i))
             return False
@@ -120,10 +124,16 @@ def c03(r):
     out = []
     calls = defaultdict(int)
     reqs = defaultdict(int)
+    cutoff = r["spec"].get("cutoff") if r["spec"].get("has_cutoff") else None
+    ncalls = 0
     for i, e in enumerate(r["events"]):
         k = e["e"]
         if k == "call":
             calls[e["deme"]] += 1
+            ncalls += 1
+            if cutoff is not None and ncalls == cutoff + 1:
+                out.append(V("C03/budget", f"the objective was invoked more than {cutoff} times although every level's problem is wrapped by EvalCutoffProblem({cutoff}) "
+                                           f"(call #{ncalls} by deme {e['deme']})", event=i))
         elif k == "req":
             reqs[e["deme"]] += 1
         elif k in ("gsc", "end"):
@@ -131,6 +141,8 @@ def c03(r):
             tot = sum(d["nev"] for d in snap["demes"])
             if e["total"] != tot:
                 out.append(V("C03/sum", f"tree.n_evaluations={e['total']} but the demes sum to {tot}", event=i))
+            if cutoff is not None and ncalls >= cutoff:
+                continue   # the cutoff wrapper may have started refusing: the counters then also count refused requests (as the property allows)
             for d in snap["demes"]:
                 if d["nev"] != calls[d["id"]]:
                     out.append(V("C03/exact", f"deme {d['id']} ({d['cls']}) reports {d['nev']} evaluations, the objective was invoked {calls[d['id']]} times for it "
@@ -607,6 +619,7 @@ def c12(r):
     out = []
     spec = r["spec"]
     mx = spec["maximize"]
+    has_nan = spec["objective"]["kind"] == "nanhole"   # NaN fitness: only the size clause is compared (NaN-vs-NaN ordering is a coin in pyhms)
     gens = defaultdict(list)
     lvl = {}
     for e in r["events"]:
@@ -627,6 +640,8 @@ def c12(r):
                 out.append(V("C12/size", f"deme {d} ({eng}): generation {a} has {len(fa)} individuals, generation {b} has {len(fb_)}"))
                 break
             elit = (eng in ("SEA", "SEAWithCrossover", "GAStyleSEA", "SEAWithAdaptiveMutation") and lv.get("k_elites", 1) >= 1) or eng in ("DE", "DEdither", "SHADE")
+            if has_nan:
+                continue
             if elit:
                 ba = max(fa, key=key) if mx else min(fa, key=key)
                 bb = max(fb_, key=key) if mx else min(fb_, key=key)
